@@ -89,6 +89,15 @@ CallsOf(st, op) ==
           {KLF("add_cell", SortedSeq(x[1]), x[2]) : x \in
               {y \in (KSub(2, FreeHF(st)) \cup KSub(3, FreeHF(st)) \cup KSub(4, FreeHF(st))) \X BOOLEAN :
                   ClosedSurface(st, SortedSeq(y[1]))}}
+    [] op = "set_edge_v" ->   \* re-target an edge that no live face uses
+          {K("set_edge", e, 0, <<t[1], t[2]>>, FALSE) : <<e, t>> \in
+              {x \in LiveE(st) \X (LiveV(st) \X LiveV(st)) :
+                  x[2][1] # x[2][2] /\ \A f \in LiveF(st) : \A he \in Rng(At(st.faces, f)) : Full(he) # x[1]}}
+    [] op = "set_face_rot" -> \* the same loop, rotated by one; the opposite loop if no cell uses the face
+          {K("set_face", f, 0, Tail(At(st.faces, f)) \o <<Head(At(st.faces, f))>>, FALSE) : f \in {g \in LiveF(st) : At(st.faces, g) # <<>>}}
+          \cup {K("set_face", f, 0, Rev(MapSeq(Opp, At(st.faces, f))), FALSE) :
+                   f \in {g \in LiveF(st) : CellsOfHF(st, 2 * g) = {} /\ CellsOfHF(st, 2 * g + 1) = {}}}
+    [] op = "set_cell_perm" -> {K("set_cell", c, 0, Rev(At(st.cells, c)), FALSE) : c \in LiveC(st)}
     [] op = "delete_vertex" -> {KA(op, v) : v \in LiveV(st)}
     [] op = "delete_edge"   -> {KA(op, e) : e \in LiveE(st)}
     [] op = "delete_face"   -> {KA(op, f) : f \in LiveF(st)}
@@ -115,14 +124,15 @@ Core(st) == [nv |-> st.nv, vdel |-> st.vdel, edel |-> st.edel, fdel |-> st.fdel,
              pV |-> st.pV, pE |-> st.pE, pHE |-> st.pHE, pF |-> st.pF, pHF |-> st.pHF, pC |-> st.pC,
              ret |-> st.ret]
 
-ModelCheck(pre, c, m) ==
+SetOps == {"set_edge", "set_face", "set_cell"}
+ModelCheck(pre, c, m, tainted) ==
   IF m.err # "" THEN "NoInternalError:" \o m.err
   ELSE IF ~WellFormed(m) THEN "WellFormed"
   ELSE IF ~CountersConsistent(m) THEN "CountersConsistent"
   ELSE IF ~StepRel(pre, c, m, m.ret, ModelMap(m)) THEN "StepRel"
   ELSE IF ~ModelPropsAligned(pre, m) THEN "PropsAligned"
   ELSE IF Manifoldish(m) /\ ~CacheIsInverse(m) THEN "CacheIsInverse"
-  ELSE IF Manifoldish(m) /\ ~FanOrder(m) THEN "FanOrder"
+  ELSE IF ~tainted /\ Manifoldish(m) /\ ~FanOrder(m) THEN "FanOrder"
   ELSE IF ~(IsEnableBU(c)) /\ Core(Apply(AllOn(pre), c)) # Core(m) THEN "BUTransparent"
   ELSE ""
 
@@ -131,6 +141,8 @@ ModesAll     == BOOLEAN \X BOOLEAN
 ModesDefault == {<<TRUE, TRUE>>}
 ModesImmediate == {<<FALSE, FALSE>>, <<FALSE, TRUE>>}
 ModesDeferred == {<<TRUE, FALSE>>, <<TRUE, TRUE>>}
+ModesTwo     == {<<TRUE, TRUE>>, <<FALSE, FALSE>>}
+BUTwo        == {<<TRUE, TRUE, TRUE>>, <<FALSE, FALSE, FALSE>>}
 BUAll        == BOOLEAN \X BOOLEAN \X BOOLEAN
 BUOn         == {<<TRUE, TRUE, TRUE>>}
 NoOps        == {}
@@ -148,7 +160,7 @@ Step(c, last) ==
   /\ s' = Tag(m)
   /\ path' = Append(path, c)
   /\ done' = last
-  /\ bad' = ModelCheck(s, c, m)
+  /\ bad' = ModelCheck(s, c, m, c.op \in SetOps \/ \E i \in DOMAIN path : path[i].op \in SetOps)
   /\ UNCHANGED org
 
 Next ==
